@@ -60,6 +60,9 @@ def stepPatch (cas obs : String) : String :=
   let f := PT.fields obs
   let g := PT.get f
   let mon := PT.monitor (match cas.splitOn "|" with | [_, _, b, _, _, _] => b != "-" | _ => false) f
+  -- an integer above 2^53 in the encoded set: Go's getPatch rounds it through float64, the model's numbers are exact;
+  -- such cases are judged by the monitors only
+  if g "bigint" == "1" then s!"{obs}\t{mon}\tbigint" else
   match cas.splitOn "|" with
   | [_, _, b, _, cc, _] =>
     match parse (g "enc").toList with
